@@ -207,11 +207,9 @@ Definition check_C16 (c : c16_case) : bool :=
           match q_write f rep save_sub, file with
           | OK (g, side), Some o =>
               grid_rel (is_txt rep) exact pyth g o &&
-              (* the side-car on disk after the write: the new one, else whatever was there *)
-              let disk := match side with
-                          | Some sd => Some sd
-                          | None => option_map (map (mk_sub (vf_mesh f))) stale
-                          end in
+              (* the side-car on disk after the write (Vtk.sidecar_after) *)
+              let disk := sidecar_after (option_map (map (mk_sub (vf_mesh f))) stale) save_sub
+                                        (subs (vf_mesh f)) in
               res_rel (fld_rel true) (q_from_vtk (to_grid o) disk) obs
           | Err _, None => match obs with None => true | Some _ => false end
           | _, _ => false
